@@ -4,6 +4,7 @@ import (
 	"fmt"
 	"go/ast"
 	"go/token"
+	"go/types"
 	"sort"
 	"strings"
 
@@ -497,6 +498,45 @@ func extractTimeout(p *pkgs, out string) {
 			return true
 		})
 		l.printf("/-- whether contextFromHeaders mentions the MaxInt64 constant (saturating multiply) -/\ndef timeoutSaturates : Bool := %v\n", sat)
+		// the guard of the context.WithTimeout call, the context it extends, and where that context comes from
+		applyCond, ctxArg, ctxFrom := "", "", ""
+		var walk func(n ast.Node, conds []string)
+		walk = func(n ast.Node, conds []string) {
+			ast.Inspect(n, func(m ast.Node) bool {
+				if m == n {
+					return true
+				}
+				switch e := m.(type) {
+				case *ast.IfStmt:
+					if e.Init != nil {
+						walk(e.Init, conds)
+					}
+					walk(e.Body, append(append([]string{}, conds...), types.ExprString(e.Cond)))
+					if e.Else != nil {
+						walk(e.Else, append(append([]string{}, conds...), "!("+types.ExprString(e.Cond)+")"))
+					}
+					return false
+				case *ast.CallExpr:
+					if sel, ok := e.Fun.(*ast.SelectorExpr); ok && (sel.Sel.Name == "WithTimeout" || sel.Sel.Name == "WithDeadline") && len(e.Args) == 2 && len(conds) > 0 {
+						applyCond = conds[len(conds)-1]
+						ctxArg = types.ExprString(e.Args[0])
+					}
+				case *ast.AssignStmt:
+					if len(e.Lhs) == 1 && len(e.Rhs) == 1 && e.Tok == token.DEFINE {
+						if id, ok := e.Lhs[0].(*ast.Ident); ok && id.Name == "ctx" {
+							ctxFrom = types.ExprString(e.Rhs[0])
+						}
+					}
+				}
+				return true
+			})
+		}
+		walk(fd.Body, nil)
+		if applyCond == "" {
+			fail("httpgrpc/server.go", "timeoutApplyCond", "guarded context.WithTimeout call not found in contextFromHeaders")
+		} else {
+			l.printf("/-- innermost guard of the `context.WithTimeout` call, the context it extends, and that context's definition -/\ndef timeoutApplyCond : String := %q\ndef timeoutCtxArg : String := %q\ndef timeoutCtxFrom : String := %q\n", applyCond, ctxArg, ctxFrom)
+		}
 	}
 
 	pk, fd = p.funcDecl(mod+"/httpgrpc", "headersFromContext")
